@@ -26,12 +26,28 @@ Definition request_into_http {E B} (r : t_request E B) (uri method : list N) (ve
     (sanitize_yes : bool) : http_request E B :=
   mkHttpReq method uri version (request_headers sanitize_yes (tr_md r)) (tr_ext r) (tr_msg r).
 
-(* what the caller of the intercepted service gets back *)
-Inductive http_response (R : Type) : Type :=
-| Wrapped (r : R)                                  (* the inner future's output, body wrapped *)
-| FromStatus (code version : N) (headers : hm).    (* Status::into_http, ResponseBody::empty() *)
-Arguments Wrapped {R} r.
-Arguments FromStatus {R} code version headers.
+(* interceptor.rs ResponseBody<B>: Empty | Wrap(B), with its http_body::Body impl:
+   poll_frame (here: the frames obtained by polling until None), is_end_stream, size_hint.
+   For Wrap they are the inner body's, given by the [inner_*] functions. *)
+Inductive response_body (RB : Type) : Type := RbEmpty | RbWrap (b : RB).
+Arguments RbEmpty {RB}.
+Arguments RbWrap {RB} b.
+Definition rb_frames {RB F} (inner_frames : RB -> list F) (b : response_body RB) : list F :=
+  match b with RbEmpty => [] | RbWrap x => inner_frames x end.
+Definition rb_is_end_stream {RB} (inner_end : RB -> bool) (b : response_body RB) : bool :=
+  match b with RbEmpty => true | RbWrap x => inner_end x end.
+(* size_hint().exact() *)
+Definition rb_size_exact {RB} (inner_size : RB -> option N) (b : response_body RB) : option N :=
+  match b with RbEmpty => Some 0 | RbWrap x => inner_size x end.
+
+(* what the caller of the intercepted service gets back: the inner service's error, or a
+   response whose head is the inner service's (any type P) or the one Status::into_http builds *)
+Inductive resp_head (P : Type) : Type :=
+| HInner (p : P)
+| HStatus (code version : N) (headers : hm).
+Arguments HInner {P} p.
+Arguments HStatus {P} code version headers.
+Definition http_response (P RB : Type) : Type := (resp_head P * response_body RB)%type.
 
 Definition HTTP_200 : N := 200.
 Definition HTTP_11 : N := 11.      (* http::Response::new leaves the default version HTTP/1.1 *)
@@ -39,10 +55,17 @@ Definition HTTP_11 : N := 11.      (* http::Response::new leaves the default ver
 (* an interceptor is any function Request<()> -> Result<Request<()>, Status> *)
 Definition interceptor (E : Type) : Type := t_request E unit -> t_request E unit + status.
 
+(* ResponseFuture::poll, Kind::Future: map_ok(|res| res.map(ResponseBody::wrap)) *)
+Definition wrap_inner {Err P RB} (r : Err + (P * RB)) : Err + http_response P RB :=
+  match r with
+  | inl e => inl e
+  | inr (p, b) => inr (HInner p, RbWrap b)
+  end.
+
 (* InterceptedService::call followed by ResponseFuture::poll.  The first component is the list
    of requests handed to the inner service (its call count is the length of that list). *)
-Definition intercepted_call {E B R} (f : interceptor E) (inner : http_request E B -> R)
-    (req : http_request E B) : list (http_request E B) * res (http_response R) :=
+Definition intercepted_call {E B Err P RB} (f : interceptor E) (inner : http_request E B -> Err + (P * RB))
+    (req : http_request E B) : list (http_request E B) * res (Err + http_response P RB) :=
   let uri := rq_uri req in
   let method := rq_method req in
   let version := rq_version req in
@@ -53,10 +76,11 @@ Definition intercepted_call {E B R} (f : interceptor E) (inner : http_request E 
   match f (mkReq metadata extensions tt) with
   | inl r' =>
       let req' := request_into_http (mkReq (tr_md r') (tr_ext r') msg) uri method version false in
-      ([req'], Val (Wrapped (inner req')))
+      ([req'], Val (wrap_inner (inner req')))
   | inr st =>
+      (* Kind::Status: status.into_http::<()>() parts + ResponseBody::empty() *)
       ([], match status_into_http_headers st with
-           | Val h => Val (FromStatus HTTP_200 HTTP_11 h)
+           | Val h => Val (inr (HStatus HTTP_200 HTTP_11 h, RbEmpty))
            | Panic => Panic
            end)
   end.
@@ -87,13 +111,25 @@ Definition ext_obs (e : ext_t) : tr := Nd [oopt Nn (fst e); oopt Bs (snd e)].
 Definition req_obs (r : http_request ext_t (list N)) : tr :=
   Nd [Bs (rq_method r); Bs (rq_uri r); Nn (rq_version r); hm_canon (rq_headers r);
       ext_obs (rq_ext r); Bs (rq_body r)].
-Definition inner_resp : Type := N * (hm * list N).
+(* the inner answer of a case: code 0 = Err(text), otherwise status, headers, and a scripted
+   body (data, optional trailers) whose is_end_stream / size_hint are http_body's defaults *)
+Definition inner_resp : Type := N * (hm * (list N * option hm)).
+Definition script_body : Type := (list N * option hm)%type.
+Definition inner_of (resp : inner_resp) : list N + ((N * hm) * script_body) :=
+  let '(c, (h, (d, t))) := resp in
+  if c =? 0 then inl d else inr ((c, h), (d, t)).
+Definition body_obs (b : response_body script_body) : tr :=
+  Nd [ Nd (rb_frames (fun x : script_body => [Nd [Bs (fst x); oopt hm_canon (snd x)]]) b);
+       obool (rb_is_end_stream (fun _ => false) b);
+       oopt Nn (rb_size_exact (fun _ => None) b) ].
 
 Definition obs_intercept (a : action ext_t) (resp : inner_resp) (req : http_request ext_t (list N)) : tr :=
-  let '(calls, out) := intercepted_call (interceptor_of a) (fun _ => resp) req in
+  let '(calls, out) := intercepted_call (interceptor_of a) (fun _ => inner_of resp) req in
   Nd [ olist req_obs calls;
        match out with
        | Panic => Nd [Nn 99]
-       | Val (Wrapped (c, (h, b))) => Nd [Nn 1; Nn c; hm_canon h; Bs b]
-       | Val (FromStatus c v h) => Nd [Nn 2; Nn c; Nn v; hm_canon h; oopt status_obs (from_header_map h)]
+       | Val (inl e) => Nd [Nn 3; Bs e]
+       | Val (inr (HInner (c, h), b)) => Nd [Nn 1; Nn c; hm_canon h; body_obs b]
+       | Val (inr (HStatus c v h, b)) =>
+           Nd [Nn 2; Nn c; Nn v; hm_canon h; oopt status_obs (from_header_map h); body_obs b]
        end ].
